@@ -180,6 +180,11 @@ fn serial_reference(g: &G, c: &Call) -> Option<Vec<u64>> {
             canon_pairs(&Ok(m))
         }
         Call::MultiSource { weighted, first_only, with_paths, sources } => {
+            // an absent source: no per-source reference (which error is reported first is the entry point's own
+            // business); the call is still compared across pool sizes
+            if sources.iter().any(|s| !g.has_node(s)) {
+                return vec![];
+            }
             let mut m = HashMap::new();
             for s in sources {
                 match dijkstra::single_source(g, *weighted, *s, None, None, *first_only, *with_paths) {
